@@ -13,6 +13,7 @@ import (
 	"strconv"
 	"strings"
 	"sync"
+	"syscall"
 	"time"
 )
 
@@ -55,7 +56,20 @@ func SafeExecute(sc Scenario, p *Plan) (res *Result) {
 
 // WorkerMain executes plans idx = from, from+stride, ... < total and prints one JSON line per
 // run, preceded by a journal line so that the driver can attribute a process death.
+// LimitAddressSpace caps the address space of a worker process (not possible for -race
+// binaries, which reserve terabytes of shadow memory): an attacker-chosen allocation then
+// fails fast with "fatal error: out of memory" — a process death the driver attributes through
+// the journal — instead of eating the machine.
+func LimitAddressSpace(sc Scenario) {
+	if sc.Describe().Race {
+		return
+	}
+	lim := syscall.Rlimit{Cur: 6 << 30, Max: 6 << 30}
+	syscall.Setrlimit(syscall.RLIMIT_AS, &lim)
+}
+
 func WorkerMain(sc Scenario, tier string, seed uint64, from, stride, total int) {
+	LimitAddressSpace(sc)
 	out := bufio.NewWriterSize(os.Stdout, 1<<16)
 	defer out.Flush()
 	maxPlans := sc.Describe().PlansPerProcess
@@ -109,6 +123,7 @@ func ExecMain(path string) int {
 		fmt.Fprintln(os.Stderr, "unknown property", rf.Plan.Prop)
 		return 2
 	}
+	LimitAddressSpace(sc)
 	res := SafeExecute(sc, rf.Plan)
 	b, _ := json.Marshal(res)
 	os.Stdout.Write(b)
@@ -350,6 +365,7 @@ func (d *Driver) Check(id, tier string) int {
 	var mu sync.Mutex
 	var wg sync.WaitGroup
 	deaths := []int{}
+	deathCapNoted := false
 	deathTail := map[int]string{}
 	perWorkerTimeout := 40 * time.Minute
 	if tier == "thorough" {
@@ -414,6 +430,15 @@ func (d *Driver) Check(id, tier string) int {
 				}
 				// the worker died while executing plan cur
 				mu.Lock()
+				if len(deaths) >= 24 {
+					// a systematic crasher: enough evidence, do not restart workers for ever
+					if !deathCapNoted {
+						deathCapNoted = true
+						agg.probes["driver: stopped restarting workers after 24 process deaths"]++
+					}
+					mu.Unlock()
+					return
+				}
 				if cur >= 0 {
 					deaths = append(deaths, cur)
 					t := stderr.String()
@@ -435,6 +460,10 @@ func (d *Driver) Check(id, tier string) int {
 
 	// process deaths: confirm by single-plan replay in a fresh process
 	sort.Ints(deaths)
+	if len(deaths) > 6 {
+		agg.probes["driver: process deaths beyond the first 6 not individually replayed"] += len(deaths) - 6
+		deaths = deaths[:6]
+	}
 	for _, idx := range deaths {
 		p := sc.Generate(seed, tier, idx)
 		p.Index = idx
